@@ -10,7 +10,7 @@ import pmlib
 # which command kinds a model/implementation MISMATCH belongs to
 CMD_PROPS = {
     "site": ["C20"], "term": ["C20"], "preset": ["C20", "C04"], "tpreset": ["C20"], "getsite": ["C20"], "copy": ["C20"],
-    "dumplattice": ["C20", "C04"], "index": ["C18"], "getindex": ["C18"], "getinfo": ["C18"],
+    "dumplattice": ["C20", "C04"], "tpc": ["C13"], "index": ["C18"], "getindex": ["C18"], "getinfo": ["C18"],
     "ham": ["C04"], "symm": ["C07"], "states": ["C07"], "blockof": ["C07", "C17"], "innerof": ["C07", "C17"],
     "hprepare": ["C04", "C03"],
 }
